@@ -45,12 +45,14 @@ static Verdict run(const Case &c) {
     std::vector<Bytes> frames;
     auto t1 = trace(c, 0xA5, &frames);
     auto t2 = trace(c, 0x5A, nullptr);
+    auto t3 = trace(c, 0x00, nullptr);   // all-zero fresh memory is a pattern too (a forgotten field that is only tested for "non-zero" agrees between 0xA5 and 0x5A)
     std::set<int> opcodes;
     size_t ntx = 0;
     bool noise = false;
     for (size_t i = 0; i < t1.size() && v.ok; i++) {
         // C: determinism — the same frames whatever fresh memory contains
         if (!(t1[i] == t2[i])) { v.fail(fmt("step %zu: transmit trace differs between the 0xA5 and 0x5A runs (uninitialised bytes leak into frames or behaviour)", i)); break; }
+        if (i < t3.size() && !(t1[i] == t3[i])) { v.fail(fmt("step %zu: transmit trace differs between the 0xA5 and 0x00 runs (uninitialised bytes leak into frames or behaviour)", i)); break; }
         // A: well-formedness of every transmitted frame
         for (auto &e : t1[i]) {
             if (e.kind == VE_SLEEP) continue;
@@ -103,7 +105,7 @@ int main(int argc, char **argv) {
     Evidence ev;
     ev.rule = "configurations (MTU, wired/Wi-Fi, names 0..40 bytes) x frame histories mixing valid session traffic, templated/mutated/truncated frames and raw noise; "
               "every transmitted frame is decoded independently (well-formed, <= MTU), attributed to the frame being handled (per-request budget), "
-              "and the whole history is run twice with fresh allocations filled 0xA5 / 0x5A (byte-identical traces). "
+              "and the whole history is run twice with fresh allocations filled 0xA5 / 0x5A / 0x00 (byte-identical traces). "
               "non-trivial = >= 3 transmitted frames of >= 2 different opcodes; distinct = digest of the case";
     HistWeights w;
     w.raw = 0; w.shell = 3; w.commands_from_active_only = false; w.pburst = 1; w.otherif = 1;
@@ -111,9 +113,9 @@ int main(int argc, char **argv) {
     auto gen = rc::gen::exec([w] {
         HCfg h = *hg::cfg_gen();
         if (*gx::chance(25)) {   // part of the configuration: platform getters that report failure (the answer must still be determined by configuration + frames)
-            static const int64_t bits[] = {VF_MAC, VF_IFTYPE, VF_IPV4, VF_IPV6, VF_SPEED, VF_BSSID, VF_SSID, VF_RATE, VF_RSSI, VG_HOSTNAME, VG_ICON, VG_FRIENDLY, VG_HWID};
+            static const int64_t bits[] = {VF_MAC, VF_IFTYPE, VF_IPV4, VF_IPV6, VF_SPEED, VF_BSSID, VF_SSID, VF_RATE, VF_RSSI, VG_HOSTNAME, VG_ICON, VG_FRIENDLY, VG_HWID, VG_UUID, VG_URL};
             int nf = *gx::range<int>(1, 3);
-            for (int i = 0; i < nf; i++) h.fail |= (uint32_t)bits[*gx::range<int>(0, 12)];
+            for (int i = 0; i < nf; i++) h.fail |= (uint32_t)bits[*gx::range<int>(0, 14)];
         }
         Case c;
         h.to_case(c);
